@@ -33,7 +33,7 @@ PROP = {
         "LIMIT/OFFSET are generated only under an ORDER BY over all output columns (otherwise the answer is not unique); under a partial "
         "ORDER BY the answer must be sorted under the spec comparator and equal as a multiset",
         "aggregate queries have the form SELECT keys.., aggregates.. GROUP BY keys.. (the engine emits keys then aggregates positionally); "
-        "HAVING, ORDER BY/DISTINCT/LIMIT on aggregate queries, aggregates inside expressions, COUNT(DISTINCT), sub-queries and CASE are outside the modelled grammar",
+        "HAVING, ORDER BY/DISTINCT/LIMIT on aggregate queries, aggregates inside expressions, COUNT(DISTINCT) and sub-queries are outside the modelled grammar (sub-queries answer an error since repo 1374df0); CASE (searched and simple) is modelled, but not below a unary minus",
         "SUM/AVG return DOUBLE in the engine: compared as exact integers / correctly rounded quotients, for |sum| < 2^53",
         "integer literals and stored values are exactly representable as f64 (the lexer reads numbers as f64)",
         "what a failed INSERT/UPDATE/DELETE leaves behind is C03: statements after a failed DML statement of a case are not compared",
